@@ -1080,8 +1080,9 @@ class Lib:
         k_ = vs[1].t
         m_ = vs[2].t if len(vs) > 2 else None
         q_ = eng.coerce(st, vs[3], "U") if len(vs) > 3 else None
+        i_ = vs[4].t if len(vs) > 4 else None
         pm = object.__new__(PathModel2)
-        return VBool(PathModel2.path_inst(pm, p_, k_, m_, q_))
+        return VBool(PathModel2.path_inst(pm, p_, k_, m_, q_, i_))
 
     def sp_use_path(self, st, node):
         """use_path(p, k[, m[, q]]): same instance formula as path_inst;
